@@ -3,6 +3,11 @@ import json, hashlib
 from . import common, rtcheck
 
 
+EXPECTED_REFUSALS = ('variable trailing context rules cannot be used with -f or -F', "Can't use -+ with -CF option",
+                     '%option yylineno cannot be used with REJECT', '-Cf/-CF and -I are incompatible',
+                     'REJECT cannot be used with -f or -F', '-Cf/-CF are incompatible with lex-compatibility mode')
+
+
 def run(ctx, theorems, plan, level, explanation, extra_cov=None, assumptions=(), post=None):
     discharged = common.proof_audit(ctx, theorems)
     for b in getattr(ctx, 'proof_broken', []):
@@ -29,6 +34,15 @@ def run(ctx, theorems, plan, level, explanation, extra_cov=None, assumptions=(),
         if r['build'] == 'flexfail' and not (r.get('detail') or '').strip():
             ctx.violation('flex refused a rule set without any diagnostic (%s)' % r['cfg'],
                           {'lex': r['lex'], 'opts': r['opts'], 'cfg': r['cfg']})
+            continue
+        if r['build'] == 'flexfail':
+            # a refusal has to be one the options explain; anything else means flex and the model of
+            # the generator disagree about which rule sets are acceptable
+            lines = [l for l in (r.get('detail') or '').strip().split('\n') if l.strip() and 'warning' not in l]
+            msg = lines[-1] if lines else ''
+            if not any(k in msg for k in EXPECTED_REFUSALS):
+                ctx.violation('flex refused a rule set the specification accepts (%s): %s' % (r['cfg'], msg[-200:]),
+                              {'lex': r['lex'], 'opts': r['opts'], 'cfg': r['cfg'], 'flex_stderr': r.get('detail')})
             continue
         for c in r['cases']:
             ncases += 1
